@@ -550,6 +550,7 @@ def _dir_of(t, lim):
 
 
 def run_one(tape, only=None):
+    F._T["state"].restore()      # each run models a fresh interpreter
     res = new_result()
     w = gen_workload(tape)
     scratch = fresh_dir(scratch_root(), "c01")
